@@ -103,43 +103,50 @@ def run_family(ck, cfgs, timeout=1800, allvariants=False, limit_only=False):
         cases = r.cases
         if not cases:
             raise vf.NotAVerdict("cfg %s emitted no case" % c)
-        obs = vf.run_harness("vimage", "overlay", cases, args=(["-a", "allvariants=1"] if allvariants else ["-a", "extras_every=2"]), timeout=3000)
-        if len(obs) != len(cases):
-            raise vf.NotAVerdict("overlay harness returned %d of %d cases" % (len(obs), len(cases)))
+        # big families are replayed in chunks (bounded memory, bounded wall time per harness process)
+        hargs = ["-a", "allvariants=1"] if (allvariants and len(cases) <= 60000) else ["-a", "extras_every=2"]
         nt = 0
-        for o in obs:
-            case = cases[o["i"]]
-            if len(case["layers"]) > 1 and case["expect"][-1] != case["expect"][0]:
-                nt += 1
-            for run in o["runs"]:
-                ideal, asbuilt_ok = compare(case, run)
-                if limit_only and case["devs"]:
-                    # C10 judges the byte limit; view differences inside C04's open finding classes are C04's business
-                    ideal = [m for m in ideal if ("byte limit" in m or "written to disk" in m or "CleanUp" in m or "panic" in m or "load failed" in m)]
-                if not ideal:
-                    continue
-                devs = case["devs"]
-                # requirer / limit / clean-up mismatches are never explained by the view finding classes
-                is_view = lambda m: ("direct lookup" in m or "walk " in m or "ReadDir(" in m or "walk reaches" in m)
-                is_sq = lambda m: m.startswith("squashed unpack")
-                view_mm = [m for m in ideal if is_view(m)]
-                sq_mm = [m for m in ideal if is_sq(m)]
-                other = [m for m in ideal if not is_view(m) and not is_sq(m)]
-                ok = not other
-                if view_mm:
-                    ok = ok and bool(devs) and asbuilt_ok and all(ck.known_finding(d, view_mm[0]) for d in devs)
-                if sq_mm:
-                    # the squashed unpacker has its own whiteout handling: attributed by scenario class only
-                    sq_ids = case.get("sqdevs", [])
-                    ok = ok and bool(sq_ids) and all(ck.known_finding(d, sq_mm[0]) for d in sq_ids)
-                if ok:
-                    continue
-                if len(ck.violations) < 60:
-                    ck.violation("%s [%s %s]: %s" % (ck.prop, c, run["variant"], "; ".join(ideal[:3])),
-                                 {"family": "image", "cfg": c, "case": case, "observed": run, "mismatch": ideal, "asbuilt_explains": asbuilt_ok})
-                else:
-                    ck.violations.append(("(more)", {"n": len(ck.violations)}))
-        ck.count(sum(len(o["runs"]) for o in obs))
+        nruns = 0
+        CH = 25000
+        for base in range(0, len(cases), CH):
+            chunk = cases[base:base + CH]
+            obs = vf.run_harness("vimage", "overlay", chunk, args=hargs, timeout=3000)
+            if len(obs) != len(chunk):
+                raise vf.NotAVerdict("overlay harness returned %d of %d cases" % (len(obs), len(chunk)))
+            nruns += sum(len(o["runs"]) for o in obs)
+            for o in obs:
+                case = chunk[o["i"]]
+                if len(case["layers"]) > 1 and case["expect"][-1] != case["expect"][0]:
+                    nt += 1
+                for run in o["runs"]:
+                    ideal, asbuilt_ok = compare(case, run)
+                    if limit_only and case["devs"]:
+                        # C10 judges the byte limit; view differences inside C04's open finding classes are C04's business
+                        ideal = [m for m in ideal if ("byte limit" in m or "written to disk" in m or "CleanUp" in m or "panic" in m or "load failed" in m)]
+                    if not ideal:
+                        continue
+                    devs = case["devs"]
+                    # requirer / limit / clean-up mismatches are never explained by the view finding classes
+                    is_view = lambda m: ("direct lookup" in m or "walk " in m or "ReadDir(" in m or "walk reaches" in m)
+                    is_sq = lambda m: m.startswith("squashed unpack")
+                    view_mm = [m for m in ideal if is_view(m)]
+                    sq_mm = [m for m in ideal if is_sq(m)]
+                    other = [m for m in ideal if not is_view(m) and not is_sq(m)]
+                    ok = not other
+                    if view_mm:
+                        ok = ok and bool(devs) and asbuilt_ok and all(ck.known_finding(d, view_mm[0]) for d in devs)
+                    if sq_mm:
+                        # the squashed unpacker has its own whiteout handling: attributed by scenario class only
+                        sq_ids = case.get("sqdevs", [])
+                        ok = ok and bool(sq_ids) and all(ck.known_finding(d, sq_mm[0]) for d in sq_ids)
+                    if ok:
+                        continue
+                    if len(ck.violations) < 60:
+                        ck.violation("%s [%s %s]: %s" % (ck.prop, c, run["variant"], "; ".join(ideal[:3])),
+                                     {"family": "image", "cfg": c, "case": case, "observed": run, "mismatch": ideal, "asbuilt_explains": asbuilt_ok})
+                    else:
+                        ck.violations.append(("(more)", {"n": len(ck.violations)}))
+        ck.count(nruns)
         ck.cov["distinct_nontrivial"] += nt
         ck.cov["traces_validated_against_impl"] += len(cases)
         ck.sample(cases[len(cases) // 2])
